@@ -27,8 +27,8 @@ BOUND = {
 }
 TIME_CAP = {"quick": 240, "thorough": 3000}
 
-KINDS = ["f8", "i8", "u1", "b1", "str", "U", "D", "us", "ns", "td", "obj", "objb", "objs", "strz"]
-REAL_KIND = {"objb": "obj", "objs": "obj", "strz": "str"}
+KINDS = ["f8", "i8", "u1", "b1", "str", "U", "D", "us", "ns", "td", "obj", "objb", "objs", "strz", "i8w"]
+REAL_KIND = {"objb": "obj", "objs": "obj", "strz": "str", "i8w": "i8"}
 METHODS = [("sort", 1), ("sort", -1), ("rank", "min"), ("rank", "max"), ("rank", "ordinal"), ("unique", None)]
 
 
@@ -37,6 +37,8 @@ def alpha_of(kind, tier):
         return [None, False, True]
     if kind == "objs":
         return [None, "None", "a"]  # the text 'None' is a value, not a missing value
+    if kind == "i8w":
+        return [0, -3000000000, 5, 2147483648, -1]  # both sides of the int32 range next to small values
     if kind == "strz":
         return [None, "a", "a\x00", "b"]  # strings that differ only in a trailing NUL (lost by fixed-width NumPy strings)
     return V.alphabet(kind, tier)
